@@ -158,7 +158,7 @@ RCP<const Number> RealMPFR::subreal(const Complex &other) const
     mpc_class t(get_prec());
     mpc_set_q_q(t.get_mpc_t(), get_mpq_t(other.real_),
                 get_mpq_t(other.imaginary_), MPFR_RNDN);
-    mpc_sub_fr(t.get_mpc_t(), t.get_mpc_t(), this->i.get_mpfr_t(), MPFR_RNDN);
+    mpc_fr_sub(t.get_mpc_t(), this->i.get_mpfr_t(), t.get_mpc_t(), MPFR_RNDN);
     return complex_mpc(std::move(t));
 #else
     throw SymEngineException("Result is complex. Recompile with MPC support.");
@@ -183,7 +183,7 @@ RCP<const Number> RealMPFR::subreal(const ComplexDouble &other) const
 #ifdef HAVE_SYMENGINE_MPC
     mpc_class t(get_prec());
     mpc_set_d_d(t.get_mpc_t(), other.i.real(), other.i.imag(), MPFR_RNDN);
-    mpc_sub_fr(t.get_mpc_t(), t.get_mpc_t(), this->i.get_mpfr_t(), MPFR_RNDN);
+    mpc_fr_sub(t.get_mpc_t(), this->i.get_mpfr_t(), t.get_mpc_t(), MPFR_RNDN);
     return complex_mpc(std::move(t));
 #else
     throw SymEngineException("Result is complex. Recompile with MPC support.");
@@ -232,7 +232,7 @@ RCP<const Number> RealMPFR::rsubreal(const Complex &other) const
     mpc_class t(get_prec());
     mpc_set_q_q(t.get_mpc_t(), get_mpq_t(other.real_),
                 get_mpq_t(other.imaginary_), MPFR_RNDN);
-    mpc_fr_sub(t.get_mpc_t(), this->i.get_mpfr_t(), t.get_mpc_t(), MPFR_RNDN);
+    mpc_sub_fr(t.get_mpc_t(), t.get_mpc_t(), this->i.get_mpfr_t(), MPFR_RNDN);
     return complex_mpc(std::move(t));
 #else
     throw SymEngineException("Result is complex. Recompile with MPC support.");
@@ -257,7 +257,7 @@ RCP<const Number> RealMPFR::rsubreal(const ComplexDouble &other) const
 #ifdef HAVE_SYMENGINE_MPC
     mpc_class t(get_prec());
     mpc_set_d_d(t.get_mpc_t(), other.i.real(), other.i.imag(), MPFR_RNDN);
-    mpc_fr_sub(t.get_mpc_t(), this->i.get_mpfr_t(), t.get_mpc_t(), MPFR_RNDN);
+    mpc_sub_fr(t.get_mpc_t(), t.get_mpc_t(), this->i.get_mpfr_t(), MPFR_RNDN);
     return complex_mpc(std::move(t));
 #else
     throw SymEngineException("Result is complex. Recompile with MPC support.");
@@ -371,7 +371,7 @@ RCP<const Number> RealMPFR::divreal(const Complex &other) const
     mpc_class t(get_prec());
     mpc_set_q_q(t.get_mpc_t(), get_mpq_t(other.real_),
                 get_mpq_t(other.imaginary_), MPFR_RNDN);
-    mpc_div_fr(t.get_mpc_t(), t.get_mpc_t(), this->i.get_mpfr_t(), MPFR_RNDN);
+    mpc_fr_div(t.get_mpc_t(), this->i.get_mpfr_t(), t.get_mpc_t(), MPFR_RNDN);
     return complex_mpc(std::move(t));
 #else
     throw SymEngineException("Result is complex. Recompile with MPC support.");
@@ -396,7 +396,7 @@ RCP<const Number> RealMPFR::divreal(const ComplexDouble &other) const
 #ifdef HAVE_SYMENGINE_MPC
     mpc_class t(get_prec());
     mpc_set_d_d(t.get_mpc_t(), other.i.real(), other.i.imag(), MPFR_RNDN);
-    mpc_div_fr(t.get_mpc_t(), t.get_mpc_t(), this->i.get_mpfr_t(), MPFR_RNDN);
+    mpc_fr_div(t.get_mpc_t(), this->i.get_mpfr_t(), t.get_mpc_t(), MPFR_RNDN);
     return complex_mpc(std::move(t));
 #else
     throw SymEngineException("Result is complex. Recompile with MPC support.");
@@ -446,7 +446,7 @@ RCP<const Number> RealMPFR::rdivreal(const Complex &other) const
     mpc_class t(get_prec());
     mpc_set_q_q(t.get_mpc_t(), get_mpq_t(other.real_),
                 get_mpq_t(other.imaginary_), MPFR_RNDN);
-    mpc_fr_div(t.get_mpc_t(), this->i.get_mpfr_t(), t.get_mpc_t(), MPFR_RNDN);
+    mpc_div_fr(t.get_mpc_t(), t.get_mpc_t(), this->i.get_mpfr_t(), MPFR_RNDN);
     return complex_mpc(std::move(t));
 #else
     throw SymEngineException("Result is complex. Recompile with MPC support.");
@@ -471,7 +471,7 @@ RCP<const Number> RealMPFR::rdivreal(const ComplexDouble &other) const
 #ifdef HAVE_SYMENGINE_MPC
     mpc_class t(get_prec());
     mpc_set_d_d(t.get_mpc_t(), other.i.real(), other.i.imag(), MPFR_RNDN);
-    mpc_fr_div(t.get_mpc_t(), this->i.get_mpfr_t(), t.get_mpc_t(), MPFR_RNDN);
+    mpc_div_fr(t.get_mpc_t(), t.get_mpc_t(), this->i.get_mpfr_t(), MPFR_RNDN);
     return complex_mpc(std::move(t));
 #else
     throw SymEngineException("Result is complex. Recompile with MPC support.");
@@ -519,10 +519,11 @@ RCP<const Number> RealMPFR::powreal(const Rational &other) const
 RCP<const Number> RealMPFR::powreal(const Complex &other) const
 {
 #ifdef HAVE_SYMENGINE_MPC
-    mpc_class t(get_prec());
+    mpc_class t(get_prec()), s(get_prec());
     mpc_set_q_q(t.get_mpc_t(), get_mpq_t(other.real_),
                 get_mpq_t(other.imaginary_), MPFR_RNDN);
-    mpc_pow_fr(t.get_mpc_t(), t.get_mpc_t(), this->i.get_mpfr_t(), MPFR_RNDN);
+    mpc_set_fr(s.get_mpc_t(), this->i.get_mpfr_t(), MPFR_RNDN);
+    mpc_pow(t.get_mpc_t(), s.get_mpc_t(), t.get_mpc_t(), MPFR_RNDN);
     return complex_mpc(std::move(t));
 #else
     throw SymEngineException("Result is complex. Recompile with MPC support.");
@@ -643,11 +644,10 @@ RCP<const Number> RealMPFR::rpowreal(const Rational &other) const
 RCP<const Number> RealMPFR::rpowreal(const Complex &other) const
 {
 #ifdef HAVE_SYMENGINE_MPC
-    mpc_class t(get_prec()), s(get_prec());
+    mpc_class t(get_prec());
     mpc_set_q_q(t.get_mpc_t(), get_mpq_t(other.real_),
                 get_mpq_t(other.imaginary_), MPFR_RNDN);
-    mpc_set_fr(s.get_mpc_t(), this->i.get_mpfr_t(), MPFR_RNDN);
-    mpc_pow(t.get_mpc_t(), s.get_mpc_t(), t.get_mpc_t(), MPFR_RNDN);
+    mpc_pow_fr(t.get_mpc_t(), t.get_mpc_t(), this->i.get_mpfr_t(), MPFR_RNDN);
     return complex_mpc(std::move(t));
 #else
     throw SymEngineException("Result is complex. Recompile with MPC support.");
